@@ -1,6 +1,6 @@
-(* C15, stage 3: the typedef production, every layout. *)
+(* C15, stage 5a: the typedef and const productions, every layout. *)
 From PVIdl Require Import Comb Ast Parser Print Proofs.Total Proofs.RoundTok Proofs.RoundPath Proofs.RoundAnn Proofs.RoundTy
-  Proofs.RoundKit.
+  Proofs.RoundKit Proofs.RoundNum Proofs.RoundConst Proofs.RoundDecl.
 From Coq Require Import ZifyN ZifyNat ZifyBool.
 From Coq Require String.
 Import String.StringSyntax.
@@ -10,39 +10,79 @@ Section Items.
 Variable lf : nat.
 Variable whole : list byte.
 Hypothesis Hlf : length whole < lf.
+Variable df : nat.
+Hypothesis Hdf : length whole < df.
 
-Theorem rt_typedef df c k :
-  wf_typedef c = true -> type_depth (ctd_type c) < df ->
-  stop k = true -> (typedef_ends_word c = true -> wstop k = true) -> sfx (pr_typedef c k) whole ->
+(* typedef <blank> T <blank> alias [blank] [annotations] [separator].
+   [eof]: the declaration ends the text; [nosep k] / [stop k] / [wstop k]: what follows is not mistaken for a part of it *)
+Theorem rt_typedef eof c k :
+  wf_typedef eof c = true -> (eof = true -> k = []) -> nosep k = true ->
+  (tail_open (ctd_tail c) = true -> stop k = true) -> (typedef_ends_word c = true -> wstop k = true) ->
+  sfx (pr_typedef c k) whole ->
   p_typedef lf df (pr_typedef c k) = POk k (erase_typedef c).
 Proof.
-  intros Hw Hd Hk He S.
-  destruct c as [b1 t b2 alias b3 anns sep].
+  intros Hw He Hns Hop Hew S.
+  destruct c as [b1 t b2 alias tl].
   unfold wf_typedef, pr_typedef, erase_typedef, typedef_ends_word in *.
-  cbn [ctd_b1 ctd_type ctd_b2 ctd_alias ctd_b3 ctd_anns ctd_sep] in *. bsplit Hw.
+  cbn [ctd_b1 ctd_type ctd_b2 ctd_alias ctd_tail] in *. bsplit Hw.
   unfold p_typedef. tg kw_typedef (txt "typedef").
   mbk lf whole Hlf S ltac:(now apply type_head_nb).
-  assert (F : tyfollow lf (type_ends_word t) (pr_blank b2 (alias ++ pr_blank b3 (pr_oanns anns (pr_sep sep k))))).
-  { apply (tyfollow_name lf whole Hlf); try assumption; try (sfx_of S).
-    - intros ->. discriminate.
-    - hdt.
-    - hdt.
-    - intros ->. hdt. }
-  rewrite (rt_type lf whole Hlf df t _ Hd ltac:(assumption) F) by (sfx_of S). cbn [pbind].
+  assert (F : tyfollow lf (type_ends_word t) (pr_blank b2 (alias ++ pr_tail tl k))).
+  { apply (tyfollow_name_tail lf whole Hlf eof); auto; [|sfx_of S]. intros ->. discriminate. }
+  rewrite (rt_type lf whole Hlf df t _ (type_depth_sfx whole df t _ ltac:(sfx_of S) Hdf) ltac:(assumption) F) by (sfx_of S).
+  cbn [pbind].
   mbk lf whole Hlf S ltac:(now apply ident_nb).
   rewrite (rt_ident alias) by (assumption || hdt). cbn [pbind].
-  obk lf whole Hlf S ltac:(hdt).
-  oanns_step lf whole Hlf S. osep_step lf whole Hlf S.
-  rewrite unwrap_oanns. reflexivity.
+  destruct (tail_steps lf whole Hlf eof tl k ltac:(assumption) He Hns Hop ltac:(sfx_of S)) as (o1 & o3 & E1 & E2 & E3).
+  rewrite E1. cbn [pbind]. rewrite E2. cbn [pbind]. rewrite E3. cbn [pbind]. rewrite unwrap_oanns. reflexivity.
+Qed.
+
+(* const <blank> T <blank> name [blank] = [blank] value [blank] [annotations] [separator] *)
+Theorem rt_constant eof c k :
+  wf_constant eof c = true -> (eof = true -> k = []) -> nosep k = true ->
+  (tail_open (ck_tail c) = true -> stop k = true) -> (constant_ends_word c = true -> wstop k = true) ->
+  sfx (pr_constant c k) whole ->
+  p_constant lf df (pr_constant c k) = POk k (erase_constant c).
+Proof.
+  intros Hw He Hns Hop Hew S.
+  destruct c as [b1 t b2 name b3 b4 v tl].
+  unfold wf_constant, pr_constant, erase_constant, constant_ends_word in *.
+  cbn [ck_b1 ck_type ck_b2 ck_name ck_b3 ck_b4 ck_val ck_tail] in *. bsplit Hw.
+  unfold p_constant. tg kw_const (txt "const").
+  mbk lf whole Hlf S ltac:(now apply type_head_nb).
+  assert (F : tyfollow lf (type_ends_word t) (pr_blank b2 (name ++ pr_blank b3 (txt "=" ++ pr_blank b4 (pr_const v (pr_tail tl k)))))).
+  { apply (tyfollow_name lf whole Hlf); auto; try reflexivity; [|sfx_of S]. intros ->. discriminate. }
+  rewrite (rt_type lf whole Hlf df t _ (type_depth_sfx whole df t _ ltac:(sfx_of S) Hdf) ltac:(assumption) F) by (sfx_of S).
+  cbn [pbind].
+  mbk lf whole Hlf S ltac:(now apply ident_nb).
+  rewrite (rt_ident name) by (assumption || hdt). cbn [pbind].
+  obk lf whole Hlf S ltac:(reflexivity). tg sym_const_eq (txt "=").
+  obk lf whole Hlf S ltac:(now apply const_nb).
+  assert (Fv : cvfollow (const_ends_word v) (const_is_path v) (pr_tail tl k)).
+  { apply (cvfollow_tail eof); auto. intros E1 E2. apply Hew. now rewrite E1, E2. }
+  rewrite (rt_const lf whole Hlf df v _ (cv_depth_sfx whole df v _ ltac:(sfx_of S) Hdf) ltac:(assumption) Fv) by (sfx_of S).
+  cbn [pbind].
+  destruct (tail_steps lf whole Hlf eof tl k ltac:(assumption) He Hns Hop ltac:(sfx_of S)) as (o1 & o3 & E1 & E2 & E3).
+  rewrite E1. cbn [pbind]. rewrite E2. cbn [pbind]. rewrite E3. cbn [pbind]. rewrite unwrap_oanns. reflexivity.
 Qed.
 
 End Items.
 
-(* non-vacuity: "typedef/**/map<string,listing> cpp_type(a='b');" -- the alias is the word cpp_type *)
+(* non-vacuity: the alias is the word cpp_type, the text ends with an unterminated line comment *)
 Example rt_typedef_example :
   let c := mkCTypedef [BBlock []] (CType (CTMap None [] [] (CType (CTBase BString) None) [] false []
                                      (CType (CTPath (mkCPath (txt "listing") [])) None) []) None)
-                      [BWs (txt " ")] (txt "cpp_type") [] (Some [mkCAnn [] (txt "a") [] [] (mkLit false (txt "b")) [] SepNone]) (SepSome true []) in
-  wf_typedef c = true /\ p_typedef 100 5 (pr_typedef c []) = POk [] (erase_typedef c) /\
-  pr_typedef c [] = txt "typedef/**/map<string,listing> cpp_type(a='b');".
+                      [BWs (txt " ")] (txt "cpp_type")
+                      (mkTail [] (Some [mkCAnn [] (txt "a") [] [] (mkLit false (txt "b")) [] SepNone]) (SepSome true [BLine (txt " end")])) in
+  wf_typedef true c = true /\ wf_typedef false c = false /\
+  p_typedef 100 5 (pr_typedef c []) = POk [] (erase_typedef c) /\
+  pr_typedef c [] = txt "typedef/**/map<string,listing> cpp_type(a='b');// end".
+Proof. vm_compute. repeat split. Qed.
+
+Example rt_constant_example :
+  let v := CCList [] (CLCons (CCInt (mkCInt 1 false (txt "1"))) [] (SepSome false []) (CLCons (CCPath (mkCPath (txt "trueish") [])) [] SepNone CLNil)) in
+  let c := mkCConstant [BWs (txt " ")] (CType (CTList [] [] (CType (CTBase BI32) None) [] None) None) [BHash (txt "h"); BWs [x0a]]
+                       (txt "required_t") [] [BWs (txt " ")] v (mkTail [BWs [x0a]] None SepNone) in
+  wf_constant false c = true /\
+  p_constant 100 5 (pr_constant c (txt "const")) = POk (txt "const") (erase_constant c).
 Proof. vm_compute. repeat split. Qed.
